@@ -435,6 +435,40 @@ pub fn record(args: &[String]) -> i32 {
         ascii: arg_flag(args, "--ascii"),
     };
     if arg_flag(args, "--deep") {
+        // chains of general entities around the implementation's limit on nested references (every second document),
+        // used in content or in an attribute value
+        for i in 0..count {
+            if i % 2 == 0 {
+                continue;
+            }
+            let depth = 120 + (g.r.gen_range(0..20) as usize) + if i % 4 == 3 { 40 } else { 0 };
+            let root = g.ncname();
+            let base = g.ncname();
+            let ename = |k: usize| -> Vec<u32> {
+                let mut v = base.clone();
+                v.extend(k.to_string().chars().map(|c| c as u32));
+                v
+            };
+            let mut toks = vec![json!({"k": "doctype", "n": cp(&root), "ext": "none", "pub": [], "sys": [], "subset": true})];
+            // declared from the outermost to the innermost: e<depth> -> ... -> e1 = "x"
+            for k in (1..=depth).rev() {
+                let v = if k == 1 { json!([{"t": "c", "c": 120}]) } else { json!([{"t": "c", "c": 121}, {"t": "e", "n": cp(&ename(k - 1))}]) };
+                toks.push(json!({"k": "entity", "n": cp(&ename(k)), "v": v}));
+            }
+            toks.push(json!({"k": "dtdend"}));
+            let eref = json!({"t": "e", "n": cp(&ename(depth))});
+            if g.r.gen_bool(0.5) {
+                toks.push(json!({"k": "stag", "n": cp(&root), "attrs": [], "lex": "ok"}));
+                toks.push(json!({"k": "text", "items": [{"t": "c", "c": 120}, eref]}));
+            } else {
+                let an = g.ncname();
+                toks.push(json!({"k": "stag", "n": cp(&root), "lex": "ok", "attrs": [{"n": cp(&an), "v": [{"t": "c", "c": 121}, eref]}]}));
+            }
+            toks.push(json!({"k": "etag", "n": cp(&root)}));
+            toks.push(json!({"k": "end"}));
+            let st = style(&mut g.r);
+            writeln!(w, "{}", json!({"toks": toks, "style": st, "edits": ["deep-entities"]})).unwrap();
+        }
         // plain chains of nested elements around the implementation's nesting limit
         for i in 0..count {
             let depth = 120 + (g.r.gen_range(0..20) as usize) + if i % 4 == 3 { 40 } else { 0 };
